@@ -9,6 +9,7 @@ import (
 	"errors"
 	"fmt"
 	"io"
+	"sync"
 )
 
 var errFailed = errors.New("failed to decrypt segment")
@@ -1254,4 +1255,89 @@ func GoodOkFlagExprSeg(k key, out io.Writer, data []byte, num uint32, last bool)
 		return err
 	}
 	return errFailed
+}
+
+// ---- pooled segment buffer ---------------------------------------------------
+
+var segPool = sync.Pool{New: func() any { b := make([]byte, 1<<16+17); return &b }}
+
+// GoodPooledLoop takes its buffer from a pool and gives it back once, by a deferred closure.
+func GoodPooledLoop(src io.Reader, pw *io.PipeWriter, process procFn, size int) {
+	bp := segPool.Get().(*[]byte)
+	defer func() {
+		segPool.Put(bp)
+	}()
+	buf := *bp
+	have := 0
+	for idx := uint32(0); ; idx++ {
+		var rerr error
+		for have < size+1 && rerr == nil {
+			var k int
+			k, rerr = src.Read(buf[have : size+1])
+			have += k
+		}
+		if rerr != nil && rerr != io.EOF {
+			pw.CloseWithError(rerr)
+			return
+		}
+		final := have <= size
+		n := have
+		if !final {
+			n = size
+		}
+		if perr := process(pw, buf[:n], idx, final); perr != nil {
+			pw.CloseWithError(perr)
+			return
+		}
+		if final {
+			break
+		}
+		if idx >= 1<<32-1 {
+			pw.CloseWithError(errTooLarge)
+			return
+		}
+		buf[0] = buf[size]
+		have = 1
+	}
+	pw.Close()
+}
+
+// BadDoublePutLoop gives the buffer back explicitly before the final close although the deferred release still runs.
+func BadDoublePutLoop(src io.Reader, pw *io.PipeWriter, process procFn, size int) {
+	bp := segPool.Get().(*[]byte)
+	defer segPool.Put(bp)
+	buf := *bp
+	have := 0
+	for idx := uint32(0); ; idx++ {
+		var rerr error
+		for have < size+1 && rerr == nil {
+			var k int
+			k, rerr = src.Read(buf[have : size+1])
+			have += k
+		}
+		if rerr != nil && rerr != io.EOF {
+			pw.CloseWithError(rerr)
+			return
+		}
+		final := have <= size
+		n := have
+		if !final {
+			n = size
+		}
+		if perr := process(pw, buf[:n], idx, final); perr != nil {
+			pw.CloseWithError(perr)
+			return
+		}
+		if final {
+			break
+		}
+		if idx >= 1<<32-1 {
+			pw.CloseWithError(errTooLarge)
+			return
+		}
+		buf[0] = buf[size]
+		have = 1
+	}
+	segPool.Put(bp)
+	pw.Close()
 }
